@@ -627,8 +627,10 @@ pub fn drive(args: &HashMap<String, String>) {
             owner.push((pi, b));
         }
     }
+    // (a compilation that exceeds the limit is recorded as "slow" and not judged, so it is not confirmed with a longer one:
+    //  nested inline calls make a few generated programs take minutes under every build)
     let cfg = PoolCfg { batch: 1, timeout: Duration::from_secs(15), ..PoolCfg::default() };
-    let results = run_jobs(jobs, &cfg);
+    let results = crate::pool::run_jobs_unconfirmed(jobs, &cfg);
     let mut per: Vec<serde_json::Map<String, Value>> = progs.iter().map(|_| serde_json::Map::new()).collect();
     let mut raw: Vec<serde_json::Map<String, Value>> = progs.iter().map(|_| serde_json::Map::new()).collect();
     let mut rep = Report::default();
